@@ -11,11 +11,11 @@ PROP = 'C20'
 RULE = ('cases = LinearLayerTT(size_in,size_out,rank,dtype,initializer) with 1..4 modes, rectangular sizes 1..5, rank profiles one/uniform/distinct/random, '
         'f32/f64, initializers He/Glo, bias overwritten with random values, inputs with 0..3 leading batch dims (size-1 batch dims included). Oracle: forward(x) '
         'vs tensordot of the harness-contracted dense operator plus bias (1e3*u*S_rep); named_parameters() holds every core and the bias, all requires_grad; '
-        'gradients of a random scalar loss w.r.t. every parameter vs autograd of the dense map; an invalid initializer must raise. '
+        'gradients of a random scalar loss w.r.t. every parameter vs autograd of the dense map; in half of the cases a history follows: eval(), forward, parameters overwritten in place, forward again (must reflect the new parameters), gradients in eval mode; an invalid initializer must raise. '
         'distinct = (sizes, rank, batch shape, dtype, initializer); non-trivial = non-zero reference output.')
 ASSUMPTIONS = ['cores are re-set to int-valued tensors in half of the cases so that forward can be compared bit-exactly in those']
 REQUIRED_REACH = ['nn:LinearLayerTT.__init__', 'nn:LinearLayerTT.forward', '_extras:randn']
-REQUIRED_COUNTS = {'batchdims:0': 1, 'batchdims:1': 1, 'batchdims:2': 1, 'batchdims:3': 1, 'init:He': 1, 'init:Glo': 1, 'grad_checks': 10, 'invalid-initializer': 1}
+REQUIRED_COUNTS = {'history:eval-update-forward': 5, 'batchdims:0': 1, 'batchdims:1': 1, 'batchdims:2': 1, 'batchdims:3': 1, 'init:He': 1, 'init:Glo': 1, 'grad_checks': 10, 'invalid-initializer': 1}
 LINE_FUNCS = ['LinearLayerTT.forward', 'LinearLayerTT.__init__']
 
 
@@ -121,6 +121,47 @@ def run_layer(case, ctx, g):
         for k, c in enumerate(cores):
             _gcmp(ctx, 'grad/core', what + ' core %d' % k, c.grad, leaf[k].grad, rtol, floor)
         _gcmp(ctx, 'grad/bias', what + ' bias', layer.bias.grad, bleaf.grad, rtol, 1e3 * dn.ueps(dt) * dn.fro(wgt))
+    # ---- history: eval mode, parameters changed in place, forward again (a layer must not answer from stale state) ------------------
+    if ok and case['seed'] % 2 == 0:
+        ctx.count('history:eval-update-forward')
+        ctx.call('LinearLayerTT.eval', lambda: layer.eval())
+        y_eval = ctx.lib('LinearLayerTT.forward[eval]', lambda inp: layer(inp), x)
+        if isinstance(y_eval, Raised):
+            ctx.viol('layer/eval/clause=raises:%s' % y_eval.type, '%s eval-mode forward raised %r' % (what, y_eval))
+        else:
+            compare(ctx, 'layer/eval', y_eval.detach(), ref.detach(), exact, dn.ueps(dt), srep, what + ' [eval mode]')
+        with torch.no_grad():
+            for c in cores:
+                c.copy_(gens.values(list(c.shape), dt, 'int', g, -2, 2) if case['intvals'] else c * 0.5 + 0.25)
+            layer.bias.copy_(gens.values(sout, dt, 'int' if case['intvals'] else 'gauss', g))
+        leaf2 = [c.detach().clone().to(torch.float64).requires_grad_(True) for c in cores]
+        b2 = layer.bias.detach().clone().to(torch.float64).requires_grad_(True)
+        W2 = leaf2[0].reshape(-1, leaf2[0].shape[-1])
+        for c in leaf2[1:]:
+            W2 = (W2 @ c.reshape(c.shape[0], -1)).reshape(-1, c.shape[-1])
+        W2 = W2.reshape(inter).permute([2 * i for i in range(d)] + [2 * i + 1 for i in range(d)])
+        ref2 = torch.tensordot(xr, W2, dims=(list(range(nb, nb + d)), list(range(d, 2 * d)))) + b2
+        srep2 = dn.s_rep(cores) * dn.fro(x) + dn.fro(layer.bias.detach())
+        bound2 = gens.abs_bound(cores) * float(x.abs().sum()) + float(layer.bias.detach().abs().max())
+        y3 = ctx.lib('LinearLayerTT.forward[eval,after-update]', lambda inp: layer(inp), x)
+        if isinstance(y3, Raised):
+            ctx.viol('layer/eval-after-update/clause=raises:%s' % y3.type, '%s raised %r' % (what, y3))
+        else:
+            ok3 = compare(ctx, 'layer/eval-after-update', y3.detach(), ref2.detach(), case['intvals'] and gens.exact_ok(dt, bound2), dn.ueps(dt), srep2, what + ' [eval mode, parameters updated in place]')
+            if ok3 and y3.numel() > 0:
+                if not y3.requires_grad:
+                    ctx.viol('grad/eval/clause=output-detached', '%s: eval-mode output does not require grad' % what)
+                else:
+                    wgt2 = gens.values(list(y3.shape), torch.float64, 'gauss', g)
+                    for p_ in params.values():
+                        p_.grad = None
+                    (y3.to(torch.float64) * wgt2).sum().backward()
+                    (ref2 * wgt2).sum().backward()
+                    rtol = 1e-6 if dt == torch.float64 else 2e-3
+                    floor = 1e3 * dn.ueps(dt) * dn.fro(wgt2) * max(srep2, 1e-30) / max(min(dn.fro(c.detach()) for c in cores), 1e-30)
+                    for k, c in enumerate(cores):
+                        _gcmp(ctx, 'grad/eval/core', what + ' [eval] core %d' % k, c.grad, leaf2[k].grad, rtol, floor)
+        ctx.call('LinearLayerTT.train', lambda: layer.train())
     if dn.fro(ref.detach()) > 0:
         ctx.nontrivial((tuple(sin), tuple(sout), tuple(rank), tuple(batch), case['dtype'], case['init'], case['intvals']))
 
